@@ -277,6 +277,11 @@ def call(self, e, st):
             if isinstance(want, Seq) and isinstance(want.elt, Set) and len(g.generators) == 1 and not g.generators[0].ifs:
                 yield self.bulk_sets(g, st, want), st
                 return
+            if isinstance(want, Seq) and isinstance(want.elt, List) and len(g.generators) == 1 and not g.generators[0].ifs \
+                    and isinstance(elt, ast.Call) and isinstance(elt.func, ast.Name) and elt.func.id in ("deque", "list") \
+                    and not elt.args and not elt.keywords:
+                yield self.bulk_empty_lists(g, st, want), st
+                return
         if nm == "cast" and len(e.args) == 2:
             yield from self.ev(e.args[1], st)
             return
@@ -1033,6 +1038,29 @@ def bulk_sets(self, g, st, want):
     return Val(Seq(stt), rs)
 
 
+def bulk_empty_lists(self, g, st, want):
+    """tuple(deque() for _ in src): len(src) freshly allocated, pairwise distinct, empty lists/deques."""
+    lt = want.elt
+    view, bind, ifs, s1 = self.comp_view(g, st)
+    st.pc[:] = s1.pc
+    n = view.length
+    st.assume(n >= 0)
+    base = st.next_ref
+    st.next_ref = st.next_ref + n
+    r = fresh("r", z3.IntSort())
+    keys = [("len", lt.name())] + ([("off", lt.name())] if isinstance(lt, Deque) else [])
+    for key in keys:
+        a0 = self.heap.get(st, key)
+        a1 = fresh("blen", a0.sort())
+        st.assume(z3.ForAll([r], z3.Select(a1, r) == z3.If(z3.And(base <= r, r < base + n), z3.IntVal(0), z3.Select(a0, r))))
+        self.heap.set(st, key, a1)
+    rs = fresh("seq", z3.SeqSort(z3.IntSort()))
+    j = fresh("j", z3.IntSort())
+    st.assume(z3.Length(rs) == n)
+    st.assume(z3.ForAll([j], z3.Implies(z3.And(0 <= j, j < n), rs[j] == base + j)))
+    return Val(Seq(lt), rs)
+
+
 def chain_views(self, vs):
     if len(vs) == 1:
         return vs[0]
@@ -1562,6 +1590,24 @@ def pick_variant(self, c, args, kwargs, st):
     raise Untranslatable(f"no variant of {c.qual} matches the argument types")
 
 
+def check_call_requires(self, c, env, st, site):
+    """The caller's own call-site obligations on the callee c (call_requires of the contract under verification)."""
+    extra_reqs = self.c.call_requires.get(c.qual, []) if not self.spec else []
+    if not extra_reqs:
+        return
+    menv = dict(self.entry.env)
+    menv.update(st.env)
+    for k in env:
+        if k in menv:
+            menv["caller_" + k] = menv[k]       # a callee parameter shadows the caller's name: caller_<name>
+    menv.update(env)
+    ms = State(menv, st.heap, st.pc, st.next_ref, st.ghost, st.labels)
+    for k, r in enumerate(extra_reqs):
+        self.oblige(f"{site}.callreq{k}", st, self.spec_truth(r, ms, old=self.entry),
+                    f"{self.c.qual} must call {c.qual} with: {r}")
+    self.call_req_sites = getattr(self, "call_req_sites", 0) + 1
+
+
 def call_contract(self, c, args, kwargs, st, node):
     """Replace a call by the callee's contract: assert requires, havoc modifies, assume ensures."""
     c = self.pick_variant(c, args, kwargs, st)
@@ -1587,19 +1633,7 @@ def call_contract(self, c, args, kwargs, st, node):
         else:
             self.oblige(f"{site}.pre{k}", st, z, f"precondition of {c.qual}: {r}")
         st.assume(z)
-    extra_reqs = self.c.call_requires.get(c.qual, []) if not self.spec else []
-    if extra_reqs:
-        menv = dict(self.entry.env)
-        menv.update(st.env)
-        for k in env:
-            if k in menv:
-                menv["caller_" + k] = menv[k]       # a callee parameter shadows the caller's name: caller_<name>
-        menv.update(env)
-        ms = State(menv, st.heap, st.pc, st.next_ref, st.ghost, st.labels)
-        for k, r in enumerate(extra_reqs):
-            self.oblige(f"{site}.callreq{k}", st, self.spec_truth(r, ms, old=self.entry),
-                        f"{self.c.qual} must call {c.qual} with: {r}")
-        self.call_req_sites = getattr(self, "call_req_sites", 0) + 1
+    self.check_call_requires(c, env, st, site)
     if c.decreases is not None and c.qual == self.c.qual:
         # recursive call: the measure must decrease and stay non-negative
         m_new = self.as_int(self.spec_eval(c.decreases, cs), st).z
@@ -1691,6 +1725,7 @@ def call_generator_view(self, c, args, kwargs, st, node):
         z = self.spec_truth(r, cs)
         self.oblige(f"{site}.pre{k}", st, z, f"precondition of {c.qual}: {r}")
         st.assume(z)
+    self.check_call_requires(c, env, st, site)
     if c.decreases is not None and c.qual == self.c.qual:
         m_new = self.as_int(self.spec_eval(c.decreases, cs), st).z
         m_old = self.as_int(self.spec_eval(c.decreases, self.entry), st).z
